@@ -95,6 +95,26 @@ pub fn show_bytes(bytes: &[u8]) -> String {
 
 /// The deterministic message used by `log <len> <seed>` (both sides compute it).
 pub fn msg_bytes(len: usize, seed: u64) -> Vec<u8> {
+    if seed >= 1000 {
+        // multi-byte text: `seed % 3` ASCII letters, then as many three-byte characters (U+20AC) as fit,
+        // then ASCII padding — valid UTF-8 whose character boundaries fall anywhere relative to the ring
+        let lead = (seed % 3) as usize;
+        let full = len.saturating_sub(lead) / 3 * 3;
+        return (0..len)
+            .map(|i| {
+                if i < lead {
+                    b'a'
+                } else {
+                    let j = i - lead;
+                    if j < full {
+                        [0xe2u8, 0x82, 0xac][j % 3]
+                    } else {
+                        b'z'
+                    }
+                }
+            })
+            .collect();
+    }
     (0..len)
         .map(|i| {
             let i = i as u64;
